@@ -312,6 +312,9 @@ func runC01(c *Ctx) {
 		}
 		one(0, "long", sb.Bytes())
 	}
+	for _, d := range chunkBoundaryDocs() {
+		one(0, "chunk-boundary", d)
+	}
 	orc.Flush()
 	_ = fmt.Sprint
 }
